@@ -1,9 +1,10 @@
 package c18
 
-// The write-back's system calls.  The child performs a list of SetValues calls,
-// each bracketed by two marker calls (a failing openat on <dir>/.mark-b-N / .mark-e-N);
-// the parent runs the child under strace, cuts the trace at the markers and turns
-// the successful calls on the configuration directory into FsWrite events.
+// The write-back's system calls.  The child performs a list of SetValues calls, each
+// in a directory tree of its own laid out as the case says (sysLayouts) and bracketed
+// by two marker calls (a failing openat on <dir>/.mark-b-N / .mark-e-N); the parent
+// runs the child under strace, cuts the trace at the markers and turns the successful
+// calls on entries of that tree into FsWrite events.
 
 import (
 	"bufio"
@@ -23,16 +24,131 @@ import (
 )
 
 type sysCase struct {
-	Case int               `json:"case"`
-	Old  []byte            `json:"old"`
-	KV   map[string]string `json:"kv"`
+	Case   int               `json:"case"`
+	Layout string            `json:"layout"`
+	Old    []byte            `json:"old"`
+	KV     map[string]string `json:"kv"`
 }
 
 type sysResult struct {
-	Case  int      `json:"case"`
-	New   []byte   `json:"new"`
-	Left  []string `json:"left"` // names in the directory after the call
-	Panic string   `json:"panic"`
+	Case  int         `json:"case"`
+	Root  string      `json:"root"`  // the directory tree of this case (kept for the parent)
+	Cwd   string      `json:"cwd"`   // working directory of the child during the call
+	Conf  string      `json:"conf"`  // the configuration path as the library computes it
+	File  string      `json:"file"`  // the regular file that holds the content
+	Links [][2]string `json:"links"` // symbolic links to files: path, target as written
+	New   []byte      `json:"new"`   // content read through the configuration path afterwards
+	Left  []string    `json:"left"`  // entries below Root after the call
+	Panic string      `json:"panic"`
+}
+
+// The layouts the configuration file is reached through ("all configurations"): how the home
+// directory is named (option, environment, absolute, relative, ".", through a symbolic link to
+// a directory) x what the configuration path is (a regular file, a symbolic link with an
+// absolute / relative target, in the same or another directory, a chain of links).
+var sysLayouts = []string{"plain", "symabs", "relhome", "symrel", "dirlink", "envhome", "symchain", "dothome", "envconf", "symsame", "relsym", "dirlinksym"}
+
+type sysLayout struct {
+	cwd   string
+	opts  []conffile.FileConfigOption
+	env   map[string]string
+	file  string
+	links [][2]string
+}
+
+// buildLayout creates the tree of one case below root and says how the library is to be pointed at it
+func buildLayout(layout, root string, old []byte) (*sysLayout, error) {
+	home, store := filepath.Join(root, "home"), filepath.Join(root, "store")
+	lay := &sysLayout{cwd: root, env: map[string]string{}}
+	mk := func(dirs ...string) error {
+		for _, d := range dirs {
+			if err := os.MkdirAll(d, 0o755); err != nil {
+				return err
+			}
+		}
+		return nil
+	}
+	link := func(target, path string) error {
+		lay.links = append(lay.links, [2]string{path, target})
+		return os.Symlink(target, path)
+	}
+	var err error
+	confName := filepath.Join(home, "whatap.conf")
+	lay.file = confName
+	lay.opts = []conffile.FileConfigOption{conffile.WithHomePath(home)}
+	switch layout {
+	case "plain":
+		err = mk(home)
+	case "symabs":
+		if err = mk(home, store); err == nil {
+			lay.file = filepath.Join(store, "real.conf")
+			err = link(lay.file, confName)
+		}
+	case "symrel", "relsym":
+		if err = mk(home, store); err == nil {
+			lay.file = filepath.Join(store, "real.conf")
+			err = link(filepath.Join("..", "store", "real.conf"), confName)
+		}
+		if layout == "relsym" {
+			lay.opts = []conffile.FileConfigOption{conffile.WithHomePath("home")}
+		}
+	case "symsame":
+		if err = mk(home); err == nil {
+			lay.file = filepath.Join(home, "real.conf")
+			err = link("real.conf", confName)
+		}
+	case "symchain":
+		if err = mk(home, store); err == nil {
+			lay.file = filepath.Join(store, "real.conf")
+			if err = link("hop.conf", confName); err == nil {
+				err = link(lay.file, filepath.Join(home, "hop.conf"))
+			}
+		}
+	case "dirlink", "dirlinksym":
+		real := filepath.Join(root, "realhome")
+		if err = mk(real, store); err == nil {
+			err = os.Symlink("realhome", home)
+		}
+		lay.file = filepath.Join(real, "whatap.conf")
+		if err == nil && layout == "dirlinksym" {
+			lay.file = filepath.Join(store, "real.conf")
+			err = link(filepath.Join("..", "store", "real.conf"), filepath.Join(real, "whatap.conf"))
+		}
+	case "relhome":
+		err = mk(home)
+		lay.opts = []conffile.FileConfigOption{conffile.WithHomePath("home")}
+	case "dothome":
+		err = mk(home)
+		lay.cwd, lay.opts = home, nil
+	case "envhome":
+		err = mk(home)
+		lay.opts, lay.env["WHATAP_HOME"] = nil, home
+	case "envconf":
+		cfg := filepath.Join(root, "cfg")
+		err = mk(home, cfg)
+		lay.opts = nil
+		lay.env["WHATAP_HOME"], lay.env["WHATAP_CONFIG_HOME"], lay.env["WHATAP_CONFIG"] = home, cfg, "agent.conf"
+		lay.file = filepath.Join(cfg, "agent.conf")
+	default:
+		return nil, fmt.Errorf("unknown layout %q", layout)
+	}
+	if err != nil {
+		return nil, err
+	}
+	return lay, os.WriteFile(lay.file, old, 0o644)
+}
+
+func listTree(root string) []string {
+	out := []string{}
+	filepath.Walk(root, func(p string, info os.FileInfo, err error) error {
+		if err == nil && p != root && !info.IsDir() {
+			rel, _ := filepath.Rel(root, p)
+			out = append(out, rel)
+		}
+		return nil
+	})
+	sort.Strings(out)
+	return out
 }
 
 func childSys() error {
@@ -45,17 +161,20 @@ func childSys() error {
 		return err
 	}
 	dir := os.Getenv("C18_DIR")
-	path := filepath.Join(dir, "whatap.conf")
 	var res []sysResult
 	for _, cs := range cases {
-		ents, _ := os.ReadDir(dir)
-		for _, e := range ents {
-			os.Remove(filepath.Join(dir, e.Name()))
-		}
-		if err := os.WriteFile(path, cs.Old, 0o644); err != nil {
+		root := filepath.Join(dir, fmt.Sprintf("case%d", cs.Case))
+		lay, err := buildLayout(cs.Layout, root, cs.Old)
+		if err != nil {
 			return err
 		}
-		conf := conffile.NewFileConfigForVerif(conffile.WithHomePath(dir))
+		if err := os.Chdir(lay.cwd); err != nil {
+			return err
+		}
+		for k, v := range lay.env {
+			os.Setenv(k, v)
+		}
+		conf := conffile.NewFileConfigForVerif(lay.opts...)
 		kv := map[string]string{}
 		for k, v := range cs.KV {
 			kv[k] = v
@@ -63,13 +182,15 @@ func childSys() error {
 		os.Open(filepath.Join(dir, fmt.Sprintf(".mark-b-%d", cs.Case)))
 		msg := core.Guard(func() { conf.SetValues(&kv) })
 		os.Open(filepath.Join(dir, fmt.Sprintf(".mark-e-%d", cs.Case)))
-		nw, _ := os.ReadFile(path)
-		r := sysResult{Case: cs.Case, New: nw, Panic: msg, Left: []string{}}
-		ents, _ = os.ReadDir(dir)
-		for _, e := range ents {
-			r.Left = append(r.Left, e.Name())
+		nw, rerr := os.ReadFile(conf.GetConfFile())
+		if rerr != nil && msg == "" {
+			msg = "the configuration path cannot be read after the write-back: " + rerr.Error()
 		}
-		res = append(res, r)
+		res = append(res, sysResult{Case: cs.Case, Root: root, Cwd: lay.cwd, Conf: conf.GetConfFile(), File: lay.file, Links: lay.links,
+			New: nw, Panic: msg, Left: listTree(root)})
+		for k := range lay.env {
+			os.Unsetenv(k)
+		}
 	}
 	ob, _ := json.Marshal(res)
 	return os.WriteFile(os.Getenv("C18_OUT"), ob, 0o644)
@@ -173,7 +294,65 @@ func parseStrace(path string) ([]sysCall, error) {
 	return calls, sc.Err()
 }
 
-const straceCalls = "openat,open,creat,write,pwrite64,lseek,ftruncate,truncate,rename,renameat,renameat2,fsync,fdatasync,close,unlink,unlinkat"
+const straceCalls = "openat,open,creat,write,pwrite64,lseek,ftruncate,truncate,rename,renameat,renameat2,fsync,fdatasync,close,unlink,unlinkat,symlink,symlinkat,link,linkat"
+
+// atCwd: a relative path given to an *at call must be relative to the working directory (the
+// harness cannot name a path relative to some other directory descriptor)
+func atCwd(c sysCall, pathIdx int, p string) error {
+	if pathIdx == 0 || filepath.IsAbs(p) {
+		return nil
+	}
+	switch c.name {
+	case "openat", "unlinkat", "renameat", "renameat2", "linkat", "symlinkat":
+		if c.args[pathIdx-1] != "AT_FDCWD" {
+			return fmt.Errorf("%s: relative path %q below descriptor %s cannot be named", c.name, p, c.args[pathIdx-1])
+		}
+	}
+	return nil
+}
+
+// linkTarget: the path a symbolic link at path p with the written target tgt points to
+func linkTarget(p, tgt string) string {
+	if filepath.IsAbs(tgt) {
+		return tgt
+	}
+	return filepath.Join(filepath.Dir(p), tgt)
+}
+
+// entryNamer names directory entries: the working directory completes a relative path, symbolic
+// links in the DIRECTORY part are resolved on the (kept) tree of the case, the last component is
+// not followed.  "conf" = the entry the configuration path names, "f:<path below root>" any
+// other entry of the case, "" = elsewhere.
+func entryNamer(root, cwd, confPath string) func(string) string {
+	canon := func(p string) string {
+		if !filepath.IsAbs(p) {
+			p = filepath.Join(cwd, p)
+		}
+		p = filepath.Clean(p)
+		d, err := filepath.EvalSymlinks(filepath.Dir(p))
+		if err != nil {
+			return ""
+		}
+		return filepath.Join(d, filepath.Base(p))
+	}
+	rroot, err := filepath.EvalSymlinks(root)
+	if err != nil {
+		rroot = root
+	}
+	confEntry := canon(confPath)
+	return func(p string) string {
+		e := canon(p)
+		switch {
+		case e == "":
+			return ""
+		case e == confEntry:
+			return "conf"
+		case strings.HasPrefix(e, rroot+string(filepath.Separator)):
+			return "f:" + e[len(rroot)+1:]
+		}
+		return ""
+	}
+}
 
 // sysEvents turns the calls of one section into events; name maps a path to a directory name ("" = elsewhere)
 func sysEvents(calls []sysCall, name func(string) string) ([]core.Ev, error) {
@@ -200,6 +379,9 @@ func sysEvents(calls []sysCall, name func(string) string) ([]core.Ev, error) {
 			if err != nil {
 				return nil, err
 			}
+			if err := atCwd(c, ai, p); err != nil {
+				return nil, err
+			}
 			n := name(p)
 			if n == "" {
 				continue
@@ -218,7 +400,7 @@ func sysEvents(calls []sysCall, name func(string) string) ([]core.Ev, error) {
 			}
 			fds[c.ret] = true
 			evs = append(evs, core.Ev{"ev": "Open", "name": n, "fd": c.ret, "creat": has("O_CREAT"), "excl": has("O_EXCL"),
-				"trunc": has("O_TRUNC"), "app": has("O_APPEND"), "flags": flags})
+				"trunc": has("O_TRUNC"), "app": has("O_APPEND"), "nofollow": has("O_NOFOLLOW"), "flags": flags})
 		case "write", "pwrite64":
 			fd, _ := strconv.ParseInt(c.args[0], 10, 64)
 			if !fds[fd] {
@@ -281,6 +463,12 @@ func sysEvents(calls []sysCall, name func(string) string) ([]core.Ev, error) {
 			if err != nil {
 				return nil, err
 			}
+			if err := atCwd(c, ia, pa); err != nil {
+				return nil, err
+			}
+			if err := atCwd(c, ib, pb); err != nil {
+				return nil, err
+			}
 			na, nb := name(pa), name(pb)
 			if na == "" && nb == "" {
 				continue
@@ -301,8 +489,63 @@ func sysEvents(calls []sysCall, name func(string) string) ([]core.Ev, error) {
 			if err != nil {
 				return nil, err
 			}
+			if err := atCwd(c, ai, p); err != nil {
+				return nil, err
+			}
 			if n := name(p); n != "" {
 				evs = append(evs, core.Ev{"ev": "Unlink", "name": n})
+			}
+		case "symlink", "symlinkat":
+			// symlink(target, path) / symlinkat(target, dirfd, path)
+			ip := 1
+			if c.name == "symlinkat" {
+				ip = 2
+			}
+			tgt, err := pathArg(c.args[0])
+			if err != nil {
+				return nil, err
+			}
+			p, err := pathArg(c.args[ip])
+			if err != nil {
+				return nil, err
+			}
+			if err := atCwd(c, ip, p); err != nil {
+				return nil, err
+			}
+			if n := name(p); n != "" {
+				to := name(linkTarget(p, tgt))
+				if to == "" {
+					to = "outside:" + tgt
+				}
+				evs = append(evs, core.Ev{"ev": "Symlink", "name": n, "to": to})
+			}
+		case "link", "linkat":
+			ia, ib := 0, 1
+			if c.name == "linkat" {
+				ia, ib = 1, 3
+			}
+			pa, err := pathArg(c.args[ia])
+			if err != nil {
+				return nil, err
+			}
+			pb, err := pathArg(c.args[ib])
+			if err != nil {
+				return nil, err
+			}
+			if err := atCwd(c, ia, pa); err != nil {
+				return nil, err
+			}
+			if err := atCwd(c, ib, pb); err != nil {
+				return nil, err
+			}
+			if na, nb := name(pa), name(pb); na != "" || nb != "" {
+				if na == "" {
+					na = "outside:" + pa
+				}
+				if nb == "" {
+					nb = "outside:" + pb
+				}
+				evs = append(evs, core.Ev{"ev": "Link", "from": na, "to": nb})
 			}
 		}
 	}
@@ -348,7 +591,8 @@ func sysCaseFor(c *core.Ctx, gen string, cas int) sysCase {
 			kv[fmt.Sprintf("new_%d", r.Intn(50))] = plainValue(r)
 		}
 	}
-	return sysCase{Case: cas, Old: []byte(sb.String()), KV: kv}
+	// every layout in turn; the size classes (cas%5, cas%7) walk through the layouts as cas grows
+	return sysCase{Case: cas, Layout: sysLayouts[cas%len(sysLayouts)], Old: []byte(sb.String()), KV: kv}
 }
 
 func genSys(c *core.Ctx, t *core.Trace, gen string, n int) error {
@@ -366,7 +610,7 @@ func genSys(c *core.Ctx, t *core.Trace, gen string, n int) error {
 		return err
 	}
 	defer os.RemoveAll(work)
-	dir := filepath.Join(work, "home")
+	dir := filepath.Join(work, "fs")
 	if err := os.Mkdir(dir, 0o755); err != nil {
 		return err
 	}
@@ -397,16 +641,6 @@ func genSys(c *core.Ctx, t *core.Trace, gen string, n int) error {
 	if err != nil {
 		return err
 	}
-	confPath := filepath.Join(dir, "whatap.conf")
-	name := func(p string) string {
-		if p == confPath {
-			return "conf"
-		}
-		if filepath.Dir(p) == dir {
-			return "f:" + filepath.Base(p)
-		}
-		return ""
-	}
 	// cut at the markers
 	sections := map[int][]sysCall{}
 	cur := -1
@@ -434,22 +668,36 @@ func genSys(c *core.Ctx, t *core.Trace, gen string, n int) error {
 		}
 	}
 	total := 0
+	layouts := map[string]int{}
 	for i, cs := range cases {
 		res := results[i]
 		sec, ok := sections[cs.Case]
 		if !ok {
 			return fmt.Errorf("no marker for case %d in the strace output", cs.Case)
 		}
+		name := entryNamer(res.Root, res.Cwd, res.Conf)
 		evs, err := sysEvents(sec, name)
 		if err != nil {
 			return err
 		}
-		t.Reset(gen, cs.Case, nil)
+		t.Reset(gen, cs.Case, core.Ev{"layout": cs.Layout})
 		if res.Panic != "" {
 			t.Emit(core.Ev{"ev": "Panic", "in": "SetValues", "msg": res.Panic})
 			continue
 		}
-		t.Emit(core.Ev{"ev": "FsBegin", "old": core.Cp(cs.Old), "new": core.Cp(res.New)})
+		links := [][]string{}
+		for _, lk := range res.Links {
+			from, to := name(lk[0]), name(linkTarget(lk[0], lk[1]))
+			if from == "" || to == "" {
+				return fmt.Errorf("case %d (%s): the link %v of the layout cannot be named", cs.Case, cs.Layout, lk)
+			}
+			links = append(links, []string{from, to})
+		}
+		fileEntry := name(res.File)
+		if fileEntry == "" {
+			return fmt.Errorf("case %d (%s): the file %s of the layout cannot be named", cs.Case, cs.Layout, res.File)
+		}
+		t.Emit(core.Ev{"ev": "FsBegin", "old": core.Cp(cs.Old), "new": core.Cp(res.New), "file": fileEntry, "links": links})
 		kinds := []string{}
 		for _, e := range evs {
 			t.Emit(e)
@@ -458,11 +706,13 @@ func genSys(c *core.Ctx, t *core.Trace, gen string, n int) error {
 		sort.Strings(res.Left)
 		t.Emit(core.Ev{"ev": "FsEnd", "left": res.Left})
 		total += len(evs)
-		c.Count(gen+":"+strings.Join(kinds, ",")+fmt.Sprint(len(cs.Old) > 4096), len(evs) > 0)
-		if i == 0 {
-			c.Sample(map[string]interface{}{"gen": gen, "case": cs.Case, "syscalls": kinds, "old_bytes": len(cs.Old), "new_bytes": len(res.New)})
+		c.Count(gen+":"+cs.Layout+":"+strings.Join(kinds, ",")+fmt.Sprint(len(cs.Old) > 4096), len(evs) > 0)
+		layouts[cs.Layout]++
+		if i < 2 {
+			c.Sample(map[string]interface{}{"gen": gen, "case": cs.Case, "layout": cs.Layout, "syscalls": kinds, "old_bytes": len(cs.Old), "new_bytes": len(res.New)})
 		}
 	}
 	c.SetExtra("write_back_syscalls_judged", total)
+	c.SetExtra("write_back_layouts_judged", layouts)
 	return nil
 }
